@@ -393,6 +393,41 @@ def arrayDel (c : Codec) (fill : Byte) (a : EncArray) (k : Nat) : CRes (EncArray
   | .oob => .oob
   | .unmodelled => .unmodelled
 
+/-! ### the C++ wrapper `mpt::encode_array` (mpt++/array.cpp) -/
+
+/-- `encode_array::data()`: the finished data in front of the unfinished (scratch) area at the end of the array -/
+def xaData (a : EncArray) : List Byte :=
+  match a.buf with
+  | none => []
+  | some b => (b.drop (a.used - a.st.done - a.st.scratch)).take a.st.done
+
+/-- `encode_array::shift(len)` (as repaired): `len > 0` consumes finished data, `len = 0` moves the finished and
+    unfinished data to the front of the array; `none` = `false` -/
+def xaShift (a : EncArray) (n : Nat) : Option EncArray :=
+  if n = 0 then
+    match a.buf with
+    | none => none
+    | some b =>
+      let len := a.st.done + a.st.scratch
+      if a.used ≤ len then none
+      else some { a with buf := some ((b.drop (a.used - len)).take len ++ b.drop len), used := len }
+  else if n > a.st.done then none
+  else some { a with st := { a.st with done := a.st.done - n } }
+
+/-- `encode_array::push(const message &)` (as repaired): the fragments are pushed one after the other -/
+def xaPushMsg (c : Codec) (fill : Byte) : EncArray → List (List Byte) → List Nat → CRes (EncArray × Bool × List Nat)
+  | a, [], cons => .ok (a, true, cons)
+  | a, f :: rest, cons =>
+    if f.isEmpty then xaPushMsg c fill a rest cons
+    else match arrayPush c fill a (some f) with
+      | .ok (a', ret, cs) =>
+        if ret < 0 then .ok (a', false, cons ++ cs)
+        else if ret = (f.length : Int) then xaPushMsg c fill a' rest (cons ++ cs)
+        else .unmodelled
+      | .err e => .err e
+      | .oob => .oob
+      | .unmodelled => .unmodelled
+
 /-- a message handed to `mpt_array_push` piece by piece, then terminated -/
 def arrayMessage (c : Codec) (fill : Byte) : EncArray → List (List Byte) → CRes EncArray
   | a, [] =>
